@@ -212,6 +212,15 @@ fn run_one(out: &mut Out, lines: &[String]) {
 				if let Err(e) = orc.check_completion(*op, comp, delivered.as_deref()) {
 					verdict = Err(e);
 				}
+				// the bytes of a binary frame that are no UTF-8 are no JSON text: whatever completes from them carries a value
+				// the server never sent
+				if delivered.is_none() && matches!(w[1], "deliver" | "deliverx") && !matches!(comp, Comp::E(_)) {
+					verdict = Err(format!(
+						"operation {op} completed with {} from a binary frame whose bytes {} are no UTF-8: the value is not what the server sent",
+						comp.render(),
+						w[2]
+					));
+				}
 			}
 			// arrays: every element has the effect it would have alone, or the whole array is refused
 			if let (Some(d), true) = (&delivered, w[1] == "deliver") {
@@ -554,10 +563,21 @@ fn gen_case(rng: &mut Rng, out: &mut Out, caseno: u64, perm: Option<Vec<usize>>)
 		if rng.chance(1, 2) {
 			lines.push(format!("cl deliver {}", hexs(&noise(rng, &subs, next_id, str_ids, true))));
 		} else {
-			let pending = if next_id > 0 { rng.below(next_id) } else { 0 };
-			let (name, text) = near_miss(rng, &idj(pending, str_ids));
-			out.count(name);
-			lines.push(format!("cl deliverx {}", hexs(&text)));
+			let pending_call = open.iter().find_map(|o| if let Open::Call { id } = o { Some(*id) } else { None });
+			let pending = pending_call.unwrap_or(if next_id > 0 { rng.below(next_id) } else { 0 });
+			if rng.chance(1, 3) {
+				// a binary frame whose bytes are no UTF-8: a well-formed answer (to a pending call if there is one) or
+				// notification with one damaged character inside a string
+				out.count(if pending_call.is_some() { "utf8.for-pending-call" } else { "utf8.for-no-pending-call" });
+				let sid = subs.first().cloned().unwrap_or("\"S\"".to_string());
+				let place = rng.below(UTF8_PLACES as u64) as usize;
+				let bytes = utf8_corruption(rng, place, &idj(pending, str_ids), &sid, |k| out.count(k));
+				lines.push(format!("cl deliverx {} bin", hex(&bytes)));
+			} else {
+				let (name, text) = near_miss(rng, &idj(pending, str_ids));
+				out.count(name);
+				lines.push(format!("cl deliverx {}", hexs(&text)));
+			}
 		}
 		lines.push("cl call".into());
 		for _ in 0..rng.below(3) {
